@@ -84,7 +84,9 @@ type storeVersionSet struct {
 	numOfLevels int // num of levels
 
 	manifest bufioutil.BufioWriter
-	mutex    sync.RWMutex
+	// manifestAbandoned: a commit failed and the manifest could not be replaced yet, see rollManifest
+	manifestAbandoned bool
+	mutex             sync.RWMutex
 }
 
 // NewStoreVersionSet new VersionSet instance
@@ -115,6 +117,12 @@ func (vs *storeVersionSet) Destroy() error {
 	vs.mutex.Lock()
 	defer vs.mutex.Unlock()
 
+	if vs.manifestAbandoned {
+		// last try: the abandoned manifest may hold a record which the versions in memory do not contain
+		if err := vs.rollManifest(); err != nil {
+			return err
+		}
+	}
 	// close manifest journal writer if it's exist
 	if vs.manifest != nil {
 		if err := vs.manifest.Close(); err != nil {
@@ -150,10 +158,22 @@ func (vs *storeVersionSet) CommitFamilyEditLog(family string, editLog EditLog) e
 	vs.mutex.Lock()
 	defer vs.mutex.Unlock()
 
+	if vs.manifestAbandoned {
+		if err := vs.rollManifest(); err != nil {
+			return err
+		}
+	}
 	// add next file number init edit log for each delta edit log
 	editLog.Add(NewNextFileNumber(table.FileNumber(vs.nextFileNumber.Load())))
 	// persist edit log
 	if err := vs.persistEditLogs(vs.manifest, []EditLog{editLog}); err != nil {
+		// the record may have reached the manifest file although the commit fails (fsync error):
+		// the version in memory does not contain it, a later open would replay it and every record
+		// appended behind it. Continue with a new manifest written from the state in memory.
+		if rollErr := vs.rollManifest(); rollErr != nil {
+			versionLogger.Error("replace manifest after a failed commit error",
+				logger.String("path", vs.storePath), logger.Error(rollErr))
+		}
 		return err
 	}
 	// get current snapshot
@@ -171,6 +191,26 @@ func (vs *storeVersionSet) CommitFamilyEditLog(family string, editLog EditLog) e
 		logger.String("path", vs.storePath),
 		logger.String("family", family),
 		logger.Any("log", editLog))
+	return nil
+}
+
+// rollManifest abandons the current manifest file and starts a new one with a snapshot of the
+// versions in memory (same as after an open), invoker must add lock.
+// If that fails the next commit (or Destroy) tries again; until then no commit is accepted.
+func (vs *storeVersionSet) rollManifest() error {
+	vs.manifestAbandoned = true
+	if vs.manifest != nil {
+		if err := vs.manifest.Close(); err != nil {
+			versionLogger.Warn("close abandoned manifest error",
+				logger.String("path", vs.storePath), logger.Error(err))
+		}
+		vs.manifest = nil
+	}
+	vs.setNextFileNumberWithoutLock(table.FileNumber(vs.nextFileNumber.Load()))
+	if err := vs.initJournal(); err != nil {
+		return err
+	}
+	vs.manifestAbandoned = false
 	return nil
 }
 
